@@ -531,6 +531,15 @@ func (e *sessEnv) execAPI(t []string) (string, bool) {
 		}
 		e.cl.mu.Unlock()
 		return "ok", true
+	case "hold-next":
+		return e.holdNext(), true
+	case "release":
+		return e.release(), true
+	case "mu", "de", "ex":
+		if h := e.hold; h != nil && h.state == holdArmed && !h.running {
+			return e.deliverHeld(h, strings.Join(t, " ")), true
+		}
+		return "", false
 	case "scrape":
 		if e.ab != nil && e.ab.nvb > 0 && len(t) == 1 {
 			return e.scrapeGrp(), true
@@ -665,5 +674,90 @@ func replayGuarded(e *sessEnv, line string) string {
 		fmt.Fprintln(os.Stderr, "replay: op does not return: "+line)
 		os.Exit(3)
 		return "hang"
+	}
+}
+
+// ---- one consumer call kept in flight (`hold-next` … delivery … `release`)
+//
+// `hold-next` arms the fake consumer: the NEXT ConsumeEvent call records its context and prints its `deliver` line at
+// entry as always, but returns only at `release`. The delivery op that runs into it is executed on its own goroutine (as
+// gocbcore's dispatcher goroutine would be stuck in the listener) and answers with the observation at entry. Everything
+// else goes on meanwhile: stream.Close does not wait for listener calls in flight, so a whole rebalance can complete
+// before the call returns. When a consumer call returns is not part of the model state.
+const (
+	holdArmed = 1
+	holdInFlight = 2
+)
+
+type heldCall struct {
+	state   int
+	running bool          // the delivery op is being executed (re-entrance guard)
+	entered chan struct{} // ConsumeEvent was entered
+	rel     chan struct{} // closed by `release`
+	done    chan string   // the delivery op's goroutine returned from the observer callback
+}
+
+func (e *sessEnv) holdNext() string {
+	if e.hold != nil {
+		return "bad:already holding"
+	}
+	h := &heldCall{state: holdArmed, entered: make(chan struct{}, 1), rel: make(chan struct{})}
+	e.co.mu.Lock()
+	e.co.hook = func(int, *models.ListenerContext) {
+		e.co.mu.Lock()
+		e.co.hook = nil // one call only
+		e.co.mu.Unlock()
+		h.entered <- struct{}{}
+		<-h.rel
+	}
+	e.co.mu.Unlock()
+	e.hold = h
+	return "ok"
+}
+
+func (e *sessEnv) deliverHeld(h *heldCall, line string) string {
+	h.running = true
+	done := make(chan string, 1)
+	go func() { done <- e.exec(line) }()
+	select {
+	case <-h.entered:
+		h.state, h.done, h.running = holdInFlight, done, false
+		return joinObs(e.buf.drain())
+	case r := <-done:
+		h.running = false // the event did not reach the consumer (absorbed / dropped): still armed
+		return r
+	case <-time.After(2 * time.Second):
+		return "hang"
+	}
+}
+
+func (e *sessEnv) release() string {
+	h := e.hold
+	if h == nil {
+		return "bad:nothing held"
+	}
+	e.hold = nil
+	if h.state == holdArmed {
+		e.co.mu.Lock()
+		e.co.hook = nil
+		e.co.mu.Unlock()
+		return "disarmed"
+	}
+	close(h.rel)
+	select {
+	case r := <-h.done:
+		if r != "-" {
+			return "released ; " + r // whatever the return of the call caused
+		}
+		return "released"
+	case <-time.After(2 * time.Second):
+		return "hang"
+	}
+}
+
+func (e *sessEnv) releaseHeld() {
+	if e.hold != nil {
+		e.release()
+		e.buf.drain()
 	}
 }
